@@ -130,6 +130,11 @@ def _counter_info(ctx, f, counter, cmp_node, _depth=0):
             return None
         init = max(inits, key=O)
         v = init.value
+        if P.self_attr(v, sn) is not None and _depth < 3 and not incs:
+            # a copy of an attribute counter (the vote tally handed to a predicate helper)
+            sub = _counter_info(ctx, f, v, init, _depth + 1)
+            if sub is not None:
+                return sub
         if isinstance(v, ast.Name) and v.id != name and _depth < 3 and (P._is_local(f, v.id) or v.id in f.params):
             # the counter is a copy of another local (the value a counting helper handed back): that one is the counter
             sub = _counter_info(ctx, f, v, init, _depth + 1)
@@ -478,9 +483,7 @@ def r_leader_entry(ctx):
         for cid, (mf, mc) in msites.items():
             if mf is not f:
                 continue
-            for cn in U.nodes_containing(cfg, mc):
-                if cn.kind != 'cond':
-                    continue
+            for cn in U.decision_nodes(cfg, f, mc):
                 if n.id in cfg.reachable_from(cfg.entry.id, avoid=[cn.id]):
                     continue
                 t_target = [d for d, l in cn.succ if l == ('cond', True)]
@@ -509,9 +512,7 @@ def r_leader_entry(ctx):
         for cid, (mf, mc) in msites.items():
             if mf is not f:
                 continue
-            for cn in U.nodes_containing(cfg, mc):
-                if cn.kind != 'cond':
-                    continue
+            for cn in U.decision_nodes(cfg, f, mc):
                 # remove the true edge target path: is call reachable from entry avoiding the cond node?
                 reach = cfg.reachable_from(cfg.entry.id, avoid=[cn.id])
                 if n.id not in reach:
